@@ -210,7 +210,7 @@ SparseWeightMatrix hessian_weight_matrix(RandomAccessIterator begin, RandomAcces
                 {
                     Yi.col(ct + p + 1 + target_dimension).noalias() = Yi.col(j + 1).cwiseProduct(Yi.col(j + p + 1));
                 }
-                ct += ct + target_dimension - j;
+                ct += target_dimension - j;
             }
 
             for (IndexType i = 0; i < static_cast<IndexType>(Yi.cols()); i++)
